@@ -447,6 +447,58 @@ func runLocalSync(t *testing.T, tp *simrt.Tape, prop string) hx.Result {
 		}
 		return s
 	}
+	// extraRoot, when set, is passed as one more root: a directory inside one of
+	// the roots (a sub-directory holding repositories, or a directory inside a
+	// repository's worktree that holds a nested repository).
+	extraRoot := ""
+	// expected: the repositories the command must discover (name -> repository) and
+	// whether it must refuse (two repositories with one name, or one repository
+	// reached through two roots).
+	expected := func(sel []int) (map[string]*lsRepo, bool) {
+		want := map[string]*lsRepo{}
+		mustFail := false
+		byPath := map[string]bool{}
+		for _, r := range w.discovered(sel) {
+			n := w.name(r)
+			if want[n] != nil {
+				mustFail = true
+			}
+			want[n] = r
+			byPath[w.path(r)] = true
+		}
+		if extraRoot != "" {
+			for _, r := range w.repos {
+				p := w.path(r)
+				if p != extraRoot && !strings.HasPrefix(p, extraRoot+"/") {
+					continue
+				}
+				nested := false
+				for _, y := range w.repos {
+					yp := w.path(y)
+					if y != r && (yp == extraRoot || strings.HasPrefix(yp, extraRoot+"/")) && strings.HasPrefix(p, yp+"/") {
+						nested = true // the walk from extraRoot stops at the enclosing repository
+					}
+				}
+				if nested {
+					continue
+				}
+				rel, _ := filepath.Rel(extraRoot, p)
+				n := filepath.ToSlash(rel)
+				if n == "." {
+					n = filepath.Base(extraRoot)
+				}
+				if r.bare {
+					n = strings.TrimSuffix(n, ".git")
+				}
+				if byPath[p] || want[n] != nil {
+					mustFail = true
+				}
+				want[n] = r
+				byPath[p] = true
+			}
+		}
+		return want, mustFail
+	}
 	syncArgs := func(force bool, sel []int) []string {
 		a := []string{"-index", w.indexDir, "-disable_ctags", "-parallelism", "1"}
 		if shardLimit > 0 {
@@ -455,19 +507,15 @@ func runLocalSync(t *testing.T, tp *simrt.Tape, prop string) hx.Result {
 		if force {
 			a = append(a, "-f")
 		}
-		return append(a, rootArgs(sel)...)
-	}
-	// expected duplicates among discovered repositories
-	dupNames := func(sel []int) bool {
-		names := map[string]bool{}
-		for _, r := range w.discovered(sel) {
-			n := w.name(r)
-			if names[n] {
-				return true
-			}
-			names[n] = true
+		a = append(a, rootArgs(sel)...)
+		if extraRoot != "" {
+			a = append(a, extraRoot)
 		}
-		return false
+		return a
+	}
+	dupNames := func(sel []int) bool {
+		_, mustFail := expected(sel)
+		return mustFail
 	}
 	checkConverged := func(sel []int, ctx string) {
 		idx, problems := lsReadIndex(w.indexDir)
@@ -475,10 +523,7 @@ func runLocalSync(t *testing.T, tp *simrt.Tape, prop string) hx.Result {
 			report("C34", "index-not-loadable-after-sync", fmt.Sprintf("%s: %v", ctx, problems))
 			return
 		}
-		want := map[string]*lsRepo{}
-		for _, r := range w.discovered(sel) {
-			want[w.name(r)] = r
-		}
+		want, _ := expected(sel)
 		for _, e := range idx {
 			if len(e.shards) > 1 {
 				res.Probes["repository-spans-several-shards"]++
@@ -525,13 +570,19 @@ func runLocalSync(t *testing.T, tp *simrt.Tape, prop string) hx.Result {
 			}
 		}
 	}
+	extraDesc := func() string {
+		if extraRoot == "" {
+			return ""
+		}
+		return " +root " + strings.TrimPrefix(extraRoot, w.base+"/")
+	}
 	syncPair := func(sel []int, allowFault bool) {
 		// sync preview followed by the same command with -f
 		before := lsSnapshot(w.indexDir)
 		pout, perr, _, pops, _ := lsRun(simos.Plan{}, syncArgs(false, sel))
 		after := lsSnapshot(w.indexDir)
 		res.Evals++
-		history = append(history, fmt.Sprintf("sync roots=%s", rootNames(sel)))
+		history = append(history, fmt.Sprintf("sync roots=%s%s", rootNames(sel), extraDesc()))
 		ctx := fmt.Sprintf("sync (preview) over roots %s", rootNames(sel))
 		if muts := lsIndexMutations(pops, w.indexDir); len(muts) > 0 {
 			report("C33", "preview-mutates-index-directory|sync", fmt.Sprintf("%s performed %v in the index directory", ctx, muts))
@@ -560,7 +611,7 @@ func runLocalSync(t *testing.T, tp *simrt.Tape, prop string) hx.Result {
 			res.Faults[kk] += v
 		}
 		faulted := len(fired) > 0
-		h := fmt.Sprintf("sync -f roots=%s", rootNames(sel))
+		h := fmt.Sprintf("sync -f roots=%s%s", rootNames(sel), extraDesc())
 		if faulted {
 			h += " (" + fault + ")"
 			for _, o := range fops {
@@ -578,7 +629,7 @@ func runLocalSync(t *testing.T, tp *simrt.Tape, prop string) hx.Result {
 			if dupNames(sel) {
 				res.Probes["duplicate-names"]++
 				if ferr == nil {
-					report("C34", "duplicate-names-accepted", fmt.Sprintf("%s succeeded although two discovered repositories get the same name", fctx))
+					report("C34", "duplicate-names-accepted", fmt.Sprintf("%s succeeded although two discovered repositories get the same name or one repository is reached through two roots", fctx))
 				}
 				if muts := lsIndexMutations(fops, w.indexDir); len(muts) > 0 {
 					report("C34", "failed-for-duplicates-after-changing-the-index", fmt.Sprintf("%s failed (%v) but performed %v", fctx, ferr, muts))
@@ -764,7 +815,22 @@ func runLocalSync(t *testing.T, tp *simrt.Tape, prop string) hx.Result {
 			}
 			history = append(history, fmt.Sprintf("foreign shard %q without source appears", name))
 		case k <= 8 || k == 14:
+			if tp.Gen(5) == 0 {
+				var cands []string
+				for _, r := range w.repos {
+					if r.inside != nil {
+						cands = append(cands, filepath.Join(w.path(r.inside), "vendor"))
+					} else if i := strings.LastIndex(r.rel, "/"); i > 0 {
+						cands = append(cands, filepath.Join(w.roots[r.root], r.rel[:i]))
+					}
+				}
+				sort.Strings(cands)
+				if len(cands) > 0 {
+					extraRoot = cands[tp.Gen(len(cands))]
+				}
+			}
 			syncPair(pickRoots(), true)
+			extraRoot = ""
 		default:
 			// remove preview + remove -f
 			idx, _ := lsReadIndex(w.indexDir)
@@ -774,6 +840,12 @@ func runLocalSync(t *testing.T, tp *simrt.Tape, prop string) hx.Result {
 				if e.source != "" {
 					sels = append(sels, e.source)
 				}
+			}
+			sort.Strings(sels)
+			for n := range idx {
+				// the forms a shell completion produces; they are paths relative to the
+				// working directory, not repository names
+				sels = append(sels, "./"+n, n+"/")
 			}
 			sort.Strings(sels)
 			sels = append(sels, "no-such-repository")
